@@ -13,17 +13,18 @@ use serde_json::{json, Value};
 use std::path::Path;
 use vcore::{gen, guarded, Tier};
 
-pub const KINDS: [&str; 6] = [
+pub const KINDS: [&str; 7] = [
     "stored-bytes-0xFF",        // every stored byte of the file's sectors after the first method byte := 0xFF
     "unsupported-method-byte",  // method byte of the first compressed sector := 0x04 (no such method)
     "sector-offset-table-0xFF", // the sector offset table of a sectored compressed file := 0xFF..
     "compressed-size-halved",   // block entry: compressed size := half (compressed data truncated)
     "patch-flag",               // block entry: flags |= PATCH_FILE (not readable as a plain file)
     "position-beyond-archive",  // block entry: file position := past the end of the archive
+    "sector-checksum-mismatch", // one bit of the first stored sector checksum flipped (data itself intact)
 ];
 /// kinds that edit the classic block table (only meaningful where it is the table in use: V1/V2)
 fn table_kind(kind: usize) -> bool {
-    kind >= 3
+    (3..=5).contains(&kind)
 }
 pub const WRITERS: [&str; 2] = ["ArchiveBuilder", "mpqref"];
 pub const DCOMP: [&str; 3] = ["zlib", "bzip2", "none"];
@@ -42,17 +43,18 @@ pub struct DamagedSrc {
     pub comp: usize,    // index into DCOMP
     pub crypto: usize,  // index into truth::CRYPTO
     pub layout: usize,  // index into LAYOUTS (mpqref only; the builder decides by itself)
+    pub crc: bool,      // sector checksums (ADLER32) written for the files that can carry them
     pub victim: usize,  // index of the file that is made unreadable
     pub kind: usize,    // index into KINDS
 }
 
 impl DamagedSrc {
     pub fn key(&self) -> String {
-        format!("{}.{}.{}.{}.{}.{}.{}", self.writer, self.version, self.comp, self.crypto, self.layout, self.victim, self.kind)
+        format!("{}.{}.{}.{}.{}.{}.{}.{}", self.writer, self.version, self.comp, self.crypto, self.layout, self.crc as u8, self.victim, self.kind)
     }
     pub fn json(&self) -> Value {
         json!({"writer": WRITERS[self.writer], "version": format!("V{}", self.version + 1), "compression": DCOMP[self.comp], "crypto": CRYPTO[self.crypto],
-               "layout": LAYOUTS[self.layout], "shift": 3, "names": NAMES, "lengths": lengths(),
+               "layout": LAYOUTS[self.layout], "sector_crc": self.crc, "shift": 3, "names": NAMES, "lengths": lengths(),
                "victim": {"index": self.victim, "name": NAMES[self.victim]}, "damage": KINDS[self.kind]})
     }
     /// ground truth = what the UNDAMAGED source held
@@ -68,7 +70,7 @@ impl DamagedSrc {
     fn write_undamaged(&self, t: &Truth, path: &Path) -> Result<(), String> {
         if self.writer == 0 {
             let ci = [1usize, 2, 0][self.comp]; // index into mpqx::COMP_*
-            let cfg = Config { version: self.version, shift: 3, comp: ci, crypto: 0, crc: false, attrs: 0, listfile: true, tcomp: false };
+            let cfg = Config { version: self.version, shift: 3, comp: ci, crypto: 0, crc: self.crc, attrs: 0, listfile: true, tcomp: false };
             let mut b = cfg.builder();
             for f in &t.files {
                 let c = COMP_FLAGS[ci];
@@ -97,7 +99,7 @@ impl DamagedSrc {
                 })
                 .collect();
             let o = WOptions { version: self.version as u16, shift: 3, hash_size: 16, listfile: true, userdata_prefix: 0, deleted_slots: vec![] };
-            let bytes = mpqref::write(&wf, &o)?;
+            let bytes = mpqref::write_with(&wf, &o, &mpqref::WExt { sector_crc: self.crc, crc_sector_compressed: false })?;
             std::fs::write(path, bytes).map_err(|e| format!("write: {e}"))
         }
     }
@@ -180,13 +182,24 @@ impl DamagedSrc {
                 }
                 bytes[start + tbl] = 0x04;
             }
-            _ => {
+            2 => {
                 if tbl == 0 || csize < tbl {
                     return Err("victim has no sector offset table".into());
                 }
                 for x in &mut bytes[start..start + tbl] {
                     *x = 0xFF;
                 }
+            }
+            _ => {
+                if tbl == 0 || flags & F_CRC == 0 || flags & F_ENCRYPTED != 0 {
+                    return Err("victim is not a sectored, unencrypted file with sector checksums".into());
+                }
+                let o = |i: usize| u32::from_le_bytes(bytes[start + 4 * i..start + 4 * i + 4].try_into().unwrap()) as usize;
+                let (cs, ce) = (o(n_sect), o(n_sect + 1));
+                if o(0) != tbl || ce != cs + 4 * n_sect || ce > csize {
+                    return Err("checksum sector of the victim is not stored raw".into());
+                }
+                bytes[start + cs] ^= 0x01;
             }
         }
         Ok(())
@@ -242,10 +255,16 @@ pub fn damaged_sources(tier: Tier) -> Vec<DamagedSrc> {
                         continue;
                     }
                     for &victim in &victims {
-                        for kind in 0..KINDS.len() {
-                            let s = DamagedSrc { writer, version, comp, crypto, layout, victim, kind };
-                            if s.plausible() {
-                                v.push(s);
+                        for crc in [false, true] {
+                            // quick: checksums exactly where the victim is stored in sectors
+                            if tier == Tier::Quick && crc != (lengths()[victim] > SECTOR) {
+                                continue;
+                            }
+                            for kind in 0..KINDS.len() {
+                                let s = DamagedSrc { writer, version, comp, crypto, layout, crc, victim, kind };
+                                if s.plausible() {
+                                    v.push(s);
+                                }
                             }
                         }
                     }
@@ -261,26 +280,34 @@ impl DamagedSrc {
         let (enc, _) = crypto_of(self.crypto, self.victim);
         let len = lengths()[self.victim];
         let compressible = DCOMP[self.comp] != "none" && len > 64;
-        let single = self.writer == 1 && (self.layout == 2 || (self.layout == 0 && self.victim % 2 == 0));
+        // the builder stores a file that fits one sector as a single unit
+        let single = if self.writer == 0 { len <= SECTOR } else { self.layout == 2 || (self.layout == 0 && self.victim % 2 == 0) };
+        // a sectored file WITHOUT sector checksums is read leniently by the library (an undecodable
+        // sector is replaced by zeros, with a log line): such a file is not "unreadable"
+        let detectable = single || self.crc;
         if table_kind(self.kind) && self.version >= 2 {
             return false;
         }
         match self.kind {
-            0 | 3 => compressible,
-            1 => compressible && !enc,
+            0 => compressible && detectable,
+            // (the sectored read path never consults the compressed size: only a single unit is truncated by it)
+            3 => compressible && single,
+            1 => compressible && !enc && detectable,
             2 => compressible && !single,
+            6 => compressible && !single && self.crc && !enc,
             _ => true,
         }
     }
 }
 
-/// Option tuples crossed with the damaged sources. quick: every target without override plus the
-/// compression overrides on `preserve`, each with the flag combinations below; thorough: the full product.
+/// Option tuples crossed with the damaged sources. quick: targets preserve/V1/V3/V4 without override,
+/// preserve with compression override none, V2 with override bzip2, each with the seven flag
+/// combinations below; thorough: the full option product of the other spaces.
 pub fn damaged_groups(tier: Tier) -> Vec<Group> {
     if tier == Tier::Thorough {
         return crate::opts::option_groups(tier);
     }
-    let heads: [[u8; 3]; 8] = [[0, 0, 0], [1, 0, 0], [2, 0, 0], [3, 0, 0], [4, 0, 0], [5, 0, 0], [0, 1, 0], [0, 2, 0]];
+    let heads: [[u8; 3]; 6] = [[0, 0, 0], [1, 0, 0], [3, 0, 0], [4, 0, 0], [0, 1, 0], [2, 3, 0]];
     // (skip_encrypted, skip_signatures(0 = on), verify, list_only, preserve_order(0 = on))
     let flags: [[u8; 5]; 7] = [[0, 0, 0, 0, 0], [1, 0, 0, 0, 0], [0, 1, 0, 0, 0], [0, 0, 1, 0, 0], [0, 0, 0, 1, 0], [0, 0, 0, 0, 1], [1, 0, 1, 0, 0]];
     heads
